@@ -14,7 +14,7 @@ func runC11(e *env) {
 	e.m.Rule = "corpus modules (union shapes: value vs pointer receivers, members of several unions, unions not analysed, aliases to members, named empty interface, foreign implementers, embedded interfaces, unions as field / element / map value / top level only) " +
 		"then seeded synthesised modules; one evaluation = one module: the union table of the walk and every struct node reachable in the analysis result; non-trivial = at least one union with >= 2 members or a member of >= 2 unions"
 	e.m.Extra = map[string]interface{}{"mismatch_means": "model"}
-	specs := corpusUnions()
+	specs := append(corpusUnions(), repoFixtures("repo-testsource-defs", "repo-testsource-other")...)
 	n := 20
 	if e.thorough() {
 		n = 300
